@@ -23,7 +23,7 @@ pub const INFO: PropInfo = PropInfo {
         "all atomics involved are SeqCst, so interleaving at the six scheduling points is complete for this protocol (DESIGN.md 2.5)",
         "the oracle names no deadline while sessions are still running; every session ends by itself (client closes, or keep-alive timeout)",
     ],
-    expected_probes: &["c18.signal_during_first_poll", "c18.signal_between_checked_and_published", "c18.sessions_in_flight_at_signal", "c18.late_connect_refused", "c18.second_signal", "c18.slow_handler_finished_after_signal", "c18.spinner_rule_engaged", "c18.signal_with_no_sessions", "c18.session_ended_by_panic", "c18.sse_stream_in_flight", "c18.accept_failed", "c18.connect_attempt_after_handler_returned", "c18.keepalive_timeout_raised", "c18.session_in_flight_more_than_45s_after_the_interrupt"],
+    expected_probes: &["c18.signal_during_first_poll", "c18.signal_between_checked_and_published", "c18.sessions_in_flight_at_signal", "c18.late_connect_refused", "c18.second_signal", "c18.slow_handler_finished_after_signal", "c18.spinner_rule_engaged", "c18.signal_with_no_sessions", "c18.session_ended_by_panic", "c18.sse_stream_in_flight", "c18.accept_failed", "c18.connect_attempt_after_handler_returned", "c18.keepalive_timeout_raised", "c18.session_in_flight_more_than_45s_after_the_interrupt", "c18.preempted_at_an_access_to_the_wait_group_counter"],
 };
 
 #[derive(Clone, Debug, Serialize, Deserialize)]
@@ -192,6 +192,18 @@ fn execute(sc: &Scenario, out: &mut Outcome) {
         let mut is_first = true;
         crate::rt::SCHED_CB.with(|c| {
             *c.borrow_mut() = Some(Box::new(move |name: &'static str| {
+                if name.starts_with("atomic:") {
+                    // hook K5: an access to the wait-group counter. On a multi-thread runtime other workers run sessions
+                    // between any two such accesses of the accept loop (and vice versa): preempt here, sometimes
+                    // (a plain store is where a lost update would happen: preempt in front of it more often)
+                    if if name == "atomic:store" { t::chance(2, 3) } else { t::chance(1, 3) } {
+                        let n = simcore::run_others_nested(1 + t::draw(3) as usize);
+                        if n > 0 {
+                            simcore::with(|w| w.count("fault.preempted_at_atomic_access"));
+                        }
+                    }
+                    return;
+                }
                 if name == "poll:entry" {
                     cur.clear();
                     is_first = !*fps.borrow();
@@ -431,6 +443,9 @@ fn execute(sc: &Scenario, out: &mut Outcome) {
     let _ = points;
     if simcore::with(|w| w.counters.get("exec.spin").copied().unwrap_or(0)) > 0 {
         out.probe("c18.spinner_rule_engaged");
+    }
+    if simcore::with(|w| w.counters.get("fault.preempted_at_atomic_access").copied().unwrap_or(0)) > 0 {
+        out.probe("c18.preempted_at_an_access_to_the_wait_group_counter");
     }
     if delivered >= 2 {
         out.probe("c18.second_signal");
